@@ -888,3 +888,56 @@ Lemma ex_dedup_nonadjacent :
   rids (get_handlers [] [ex_A DUpdate; decorate DUpdate "a" 1 ex_sel [] [] None None CNone CNone CNone; ex_A (DResume false)]
                      ex_downtime_update) = Ok ["a"; "a"].
 Proof. repeat split; reflexivity. Qed.
+
+(* ---------------------------------------------------------------------------------------- *)
+(* 14. sub-handlers: the row of the decorator table                                           *)
+(* ---------------------------------------------------------------------------------------- *)
+Theorem subhandler_inherits : forall parent id fn labels annotations when field value old new,
+  let s := sub_decorate parent id fn labels annotations when field value old new in
+  (* inherited from the parent: only field_needs_change (and the id prefix) *)
+  h_needs_change s = h_needs_change parent /\ h_id s = (h_id parent ++ "/" ++ id)%string /\
+  (* fixed: a ChangingHandler for any cause kind, not initial, no finaliser, no selector *)
+  h_class s = HChanging /\ h_selector s = None /\ h_reason s = None /\ h_initial s = false /\
+  h_deleted s = false /\ h_requires_finalizer s = false /\
+  (* from the arguments, unchanged *)
+  h_fn s = fn /\ h_labels s = labels /\ h_annotations s = annotations /\ h_when s = when /\
+  h_field s = field /\ h_value s = value /\ h_old s = old /\ h_new s = new /\
+  (* hence: under a parent reacting to changes, on a changing cause, the sub-handler is an update handler as well ... *)
+  (forall c, updating s c <-> (is_changing c = true /\ h_needs_change parent = true)) /\
+  (* ... and it is selected for every cause kind (the parent has been selected already) *)
+  (forall c, cause_gate s c = Ok true).
+Proof.
+  intros. subst s. unfold sub_decorate, updating, cause_gate; cbn.
+  repeat (split; [reflexivity|]). split.
+  - intro c. tauto.
+  - intro c. destruct (c_class c); reflexivity.
+Qed.
+
+(* under a parent made by a top-level decorator, whenever the real decorator accepts the arguments (no TypeError / ValueError):
+   the record satisfies wf_decl, so C15_match_iff_spec_partial / C15_update_field_semantics / ... apply to it as to any handler *)
+Theorem subhandler_wf : forall k pid pfn sel pl pa pw pf pv po pn id fn labels annotations when field value old new,
+  let parent := decorate k pid pfn sel pl pa pw pf pv po pn in
+  sub_allowed parent old new = true ->
+  Forall (fun kv => crit_specified (snd kv)) labels -> Forall (fun kv => crit_specified (snd kv)) annotations ->
+  wf_decl (sub_decorate parent id fn labels annotations when field value old new).
+Proof.
+  intros k pid pfn sel pl pa pw pf pv po pn id fn labels annotations when field value old new parent Ha Hl Hn.
+  constructor; [exact Hl | exact Hn |].
+  cbn. intro Hnc. unfold sub_allowed in Ha.
+  destruct old, new; try (split; reflexivity); exfalso;
+    destruct k; cbn in Ha, Hnc; try discriminate.
+Qed.
+
+(* the three situations for a sub-handler with field= under an @on.update parent: changed / unchanged field; and under @on.create *)
+Definition ex_sub (k : dkind) (v o n : crit) : hdecl :=
+  sub_decorate (decorate k "p" 0 ex_sel [] [] None None CNone CNone CNone) "s" 1 [] [] None (Some ["spec"; "f"]) v o n.
+Lemma ex_subhandler :
+  matches (ex_sub DUpdate CNone CNone CNone) (ex_upd (Some (JNum 1)) (Some (JNum 2)) 0) = Ok true /\
+  matches (ex_sub DUpdate CNone CNone CNone) (ex_upd (Some (JNum 1)) (Some (JNum 1)) 5) = Ok false /\
+  matches (ex_sub DUpdate (CVal (JNum 1)) CNone CNone) (ex_upd (Some (JNum 1)) (Some (JNum 1)) 5) = Ok false /\
+  matches (ex_sub DField CNone CNone (CVal (JNum 2))) (ex_upd (Some (JNum 1)) (Some (JNum 2)) 0) = Ok true /\
+  matches (ex_sub DCreate CNone CNone CNone) (ex_changing RCreate None (Some (JNum 1))) = Ok true /\
+  h_id (ex_sub DUpdate CNone CNone CNone) = "p/s" /\
+  sub_allowed (decorate DCreate "p" 0 ex_sel [] [] None None CNone CNone CNone) CNone CPresent = false /\
+  sub_allowed (decorate DEvent "p" 0 ex_sel [] [] None None CNone CNone CNone) CNone CNone = false.
+Proof. repeat split; reflexivity. Qed.
